@@ -159,6 +159,11 @@ def _run(case, mirror, fee_obj=None):
 
 def run_case(case):
     fee_obj = kit.fee_model(case['fee'])          # one fee-model object serves both brokers
+    if case.get('retune') and isinstance(case['fee'], list):
+        # a live fee model re-tuned through its public rate attributes (commission first, or tax first)
+        fee_obj = load().PercentFeeModel(commission_pct=0.0321, tax_pct=0.0123)
+        for name in (('commission_pct', 'tax_pct') if case['retune'] == 1 else ('tax_pct', 'commission_pct')):
+            setattr(fee_obj, name, case['fee'][0] if name == 'commission_pct' else case['fee'][1])
     load().PercentFeeModel(commission_pct=0.0123, tax_pct=0.0456)     # an unrelated model built later must not matter
     a1, rate = _run(case, False, fee_obj)
     a2, _ = _run(case, True, fee_obj)
@@ -198,6 +203,8 @@ def run_case(case):
                 cls.append('order_crosses_through_flat')
     if case.get('via_exec'):
         cls.append('through_execution_handler')
+    if case.get('retune') and isinstance(case['fee'], list):
+        cls.append('fee_rates_reassigned_on_live_model')
     if any(o.get('order_commission') for o in case['orders']):
         cls.append('order_with_commission_attribute')
     if len(set(o['asset'] for o in case['orders'])) < len(case['orders']):
@@ -255,7 +262,7 @@ def cases(draw):
             m = max(1, abs(o['qty']) // 2)
             prior.append({0: 0, 1: -m if o['qty'] > 0 else m, 2: -(abs(o['qty']) + 3) if o['qty'] > 0 else abs(o['qty']) + 3,
                           3: 5 if o['qty'] > 0 else -5}[k])
-    return {'prior': prior, 'via_exec': draw(st.sampled_from([False, False, True])), 'swap_fee': swap, 't_submit': [t0.year, t0.month, t0.day, t0.hour, t0.minute, t0.second],
+    return {'retune': draw(st.sampled_from([0, 0, 1, 2])), 'prior': prior, 'via_exec': draw(st.sampled_from([False, False, True])), 'swap_fee': swap, 't_submit': [t0.year, t0.month, t0.day, t0.hour, t0.minute, t0.second],
             't_update': [t1.year, t1.month, t1.day, t1.hour, t1.minute, t1.second],
             'orders': orders, 'fee': fee}
 
